@@ -503,6 +503,355 @@ def run(chk):
             if not canon_equal(got, want):
                 chk.violation(r_op, "formula:" + name, "OPERATE %s computes %s; the documented operation is %s" % (name, got, want), f["file"], rets[0]["l"])
 
+    # ---- C12.indexlist: the three indices of every cell of a box
+    r_il = chk.rule("C12.indexlist", "Box::initIndexList: both lists are emptied first; the loop visits every data index 0..nx*ny*nz-1 of the box once; the global index is that of (i + offset[0], j + offset[1], k + offset[2]) with (i, j, k) the box coordinates of the data index; every cell goes into the global list as (global, data), active cells also into the active list as (global, active index of global, data); cell_index stores its constructor arguments under their own names (the two-argument form uses the global index as active index)", floor=7)
+    bx = chk.facts(["opm/input/eclipse/EclipseState/Grid/Box.cpp"], files_re=r"^/repo/opm/input/eclipse/EclipseState/Grid/Box\.(cpp|hpp)$")
+    il = bx.fn("Opm::Box::initIndexList")
+    if len(il) != 1:
+        raise core.AnalysisBroken("Box::initIndexList not found")
+    il = il[0]
+    from verif.alpha import Inliner
+
+    def il_clause(key, ok, found, want):
+        chk.instance(r_il, key, sample=dict(found=found))
+        if not ok:
+            chk.violation(r_il, key, "Box::initIndexList: %s; required: %s" % (found, want), il["file"], il["l"])
+    top = stmt_list(il["body"])
+    loops_i = [i_ for i_, s_ in enumerate(top) if s_["k"] == "For"]
+    if len(loops_i) != 1:
+        raise core.AnalysisBroken("Box::initIndexList: one loop over the box expected")
+    pre = [show(s_) for s_ in top[:loops_i[0]]]
+    il_clause("clear", "this.m_active_index_list.clear()" in pre and "this.m_global_index_list.clear()" in pre, "before the loop: %s" % [x for x in pre if "clear" in x], "both index lists cleared (the box is re-initialised for every record)")
+    inl = Inliner(il)
+    lp = top[loops_i[0]]
+    lv = lp["init"]["vars"][0]["n"]
+    bound = inl.render(strip(lp["cond"])["c"][1]) if strip(lp["cond"]).get("k") == "Bin" else "?"
+    start = inl.render(lp["init"]["vars"][0]["init"])
+    ok_loop = strip(lp["cond"]).get("op") in ("!=", "<") and bound == "Opm::GridDims{this.m_dims[0], this.m_dims[1], this.m_dims[2]}.getCartesianSize()" and show(lp.get("inc")) in ("(++%s)" % lv, "(%s++)" % lv)
+    from verif import symb as sy2
+    st_term = sy2.Eval(lambda e: sy2.S("N") if e.get("k") == "Ref" and e.get("n") != lv else None, set()).term(lp["init"]["vars"][0]["init"], {})
+    ok_loop = ok_loop and st_term == sy2.I(0)
+    il_clause("loop", ok_loop, "for (%s = %s; %s; %s)" % (lv, start, show(lp["cond"]), show(lp.get("inc"))), "data index from 0 to GridDims(m_dims[0], m_dims[1], m_dims[2]).getCartesianSize(), step 1")
+    body_i = stmt_list(lp["body"])
+    emp = [n for n in walk(lp["body"]) if n["k"] == "MCall" and n.get("m") == "emplace_back"]
+    g_txt = "this.m_globalGridDims_.getGlobalIndex((Opm::GridDims{this.m_dims[0], this.m_dims[1], this.m_dims[2]}.getIJK(%s)[0] + this.m_offset[0]), (Opm::GridDims{this.m_dims[0], this.m_dims[1], this.m_dims[2]}.getIJK(%s)[1] + this.m_offset[1]), (Opm::GridDims{this.m_dims[0], this.m_dims[1], this.m_dims[2]}.getIJK(%s)[2] + this.m_offset[2]))" % (lv, lv, lv)
+    for e_ in emp:
+        tgt = show(e_.get("obj"))
+        args = [inl.render(a_, roles={lv: "d"}) for a_ in e_["a"]]
+        g_ = g_txt.replace(lv, "$d")
+        if tgt == "this.m_global_index_list":
+            in_if = any(e_ is x for s_ in body_i if s_["k"] == "If" for x in walk(s_))
+            il_clause("global", args == [g_, "$d"] and not in_if, "m_global_index_list.emplace_back(%s)%s" % (", ".join(args), " under a condition" if in_if else ""), "unconditionally (global index of (i+off0, j+off1, k+off2), data index)")
+        elif tgt == "this.m_active_index_list":
+            ifs_ = [s_ for s_ in body_i if s_["k"] == "If" and any(e_ is x for x in walk(s_["then"]))]
+            cond_ok = len(ifs_) == 1 and inl.render(ifs_[0]["cond"], roles={lv: "d"}) == "this.m_globalIsActive_(%s)" % g_
+            il_clause("active", args == [g_, "this.m_globalActiveIdx_(%s)" % g_, "$d"] and cond_ok, "m_active_index_list.emplace_back(%s) under %s" % (", ".join(args), [inl.render(x["cond"], roles={lv: "d"}) for x in ifs_]), "for active cells only: (global, m_globalActiveIdx_(global), data)")
+    il_clause("lists", sorted(show(e_.get("obj")) for e_ in emp) == ["this.m_active_index_list", "this.m_global_index_list"], "emplace_back on %s" % sorted(show(e_.get("obj")) for e_ in emp), "one emplace_back per list")
+    for f in bx.fns:
+        if f.get("cls", "").endswith("Box::cell_index") and f["n"].startswith("cell_index") and f.get("inits") is not None and len(f["params"]) in (2, 3):
+            pn = [p_["n"] for p_ in f["params"]]
+            got = {i_["member"]: show(i_["init"]).replace("?ParenListExpr(", "").rstrip(")") for i_ in f["inits"]}
+            want = dict(global_index=pn[0], active_index=pn[1], data_index=pn[2]) if len(pn) == 3 else dict(global_index=pn[0], active_index=pn[0], data_index=pn[1])
+            chk.instance(r_il, "cell_index/%d" % len(pn), sample=dict(inits=got))
+            if got != want:
+                chk.violation(r_il, "cell_index/%d" % len(pn), "Box::cell_index(%s) initialises %s; required %s" % (", ".join(pn), got, want), f["file"], f["l"])
+
+    # ---- C12.scalar: the loop of every scalar primitive
+    r_sc = chk.rule("C12.scalar", "the scalar primitives of FieldProps.cpp (assign_scalar, multiply_scalar, add_scalar, min_value, max_value): one pass over the index list; the element addressed is the cell's active_index in both the data and the status array; EQUALS writes every listed cell and marks it deck_value; the others change a cell only if it has a value and otherwise count it, and a non-zero count (> 0) rejects the operation", floor=5)
+    for nm in ("assign_scalar", "multiply_scalar", "add_scalar", "min_value", "max_value"):
+        cand = [f for f in fns if f["n"] == nm and f["file"].endswith("FieldProps.cpp")]
+        if len(cand) != 1:
+            raise core.AnalysisBroken("FieldProps.cpp: %s not found" % nm)
+        f = cand[0]
+        inl = Inliner(f)
+        pn = [p_["n"] for p_ in f["params"]]
+        p_data, p_st, p_val, p_il = pn[-4], pn[-3], pn[-2], pn[-1]
+        top = stmt_list(f["body"])
+        lps = [s_ for s_ in top if s_["k"] == "ForRange"]
+        problems = []
+        if len(lps) != 1 or show(lps[0]["range"]) != p_il:
+            problems.append("no single loop over the index list parameter")
+        else:
+            lp = lps[0]
+            cv = lp["var"]["n"]
+            ix = "%s.active_index" % cv
+            body_l = stmt_list(lp["body"])
+            RL = {cv: "c", p_data: "D", p_st: "S", p_val: "V"}
+            if nm == "assign_scalar":
+                got = sorted(inl.render(s_, roles=RL) for s_ in body_l if s_["k"] != "Decl")
+                want = sorted(["($D[$c.active_index] = $V)", "($S[$c.active_index] = Opm::value::status::deck_value)"])
+                if got != want:
+                    problems.append("loop body %s, required %s" % (got, want))
+            else:
+                ifs_ = [s_ for s_ in body_l if s_["k"] == "If"]
+                if len(ifs_) != 1 or len([s_ for s_ in body_l if s_["k"] != "Decl"]) != 1:
+                    problems.append("loop body is not a single if/else")
+                else:
+                    c_ = inl.render(ifs_[0]["cond"], roles=RL)
+                    if c_ != "Opm::value::has_value($S[$c.active_index])":
+                        problems.append("the update is guarded by `%s`, required has_value(%s[cell.active_index])" % (c_, p_st))
+                    th = [inl.render(s_, roles=RL) for s_ in stmt_list(ifs_[0]["then"])]
+                    if len(th) != 1 or not th[0].startswith("($D[$c.active_index] "):
+                        problems.append("the guarded statement is %s, required an update of %s[cell.active_index]" % (th, p_data))
+                    el = [show(s_) for s_ in stmt_list(ifs_[0]["else"])] if ifs_[0].get("else") is not None else []
+                    cnt = [v["n"] for s_ in top if s_["k"] == "Decl" for v in s_["vars"] if show(v.get("init")) == "0"]
+                    if len(cnt) != 1 or el not in (["(++%s)" % cnt[0]], ["(%s++)" % cnt[0]], ["(%s += 1)" % cnt[0]]):
+                        problems.append("cells without a value are not counted once each (else branch %s, counter %s)" % (el, cnt))
+                    else:
+                        after = top[top.index(lp) + 1:]
+                        rej = [s_ for s_ in after if s_["k"] == "If" and any(x["k"] == "Call" and (x.get("fn") or "").endswith("reject_undefined_operation") for x in walk(s_["then"]))]
+                        if len(rej) != 1 or show(strip(rej[0]["cond"])) not in ("(%s > 0)" % cnt[0], "(%s != 0)" % cnt[0], "(%s >= 1)" % cnt[0]):
+                            problems.append("after the loop the operation is rejected under %s, required (%s > 0)" % ([show(x["cond"]) for x in rej], cnt[0]))
+        chk.instance(r_sc, nm, sample=dict(function=f["q"], line=f["l"], problems=problems))
+        for pr in problems:
+            chk.violation(r_sc, nm + ":" + pr[:30], "%s: %s" % (nm, pr), f["file"], f["l"])
+
+    # ---- C12.fielddata: the storage object of one keyword
+    r_fd = chk.rule("C12.fielddata", "FieldData<T>: the constructor sizes data and value_status to active cells x values per cell (all uninitialized), global storage to global cells x values per cell, and applies the keyword's scalar default if it has one; numCells() is data.size() / values per cell; default_assign(value) fills data and status (valid_default) of the active and, if present, the global storage; default_update(src) writes src[i] and valid_default exactly into the entries that have no value; update_local_from_global copies value and status of global cell local_to_global(i) into entry i for every i; operator== compares all five stored members", floor=8)
+    fdf = {}
+    for f in fx.fns:
+        if (f.get("cls") or "").endswith("Fieldprops::FieldData") and f["file"].endswith("FieldData.hpp") and f.get("body") is not None:
+            fdf.setdefault(f["n"].split("<")[0], []).append(f)
+
+    def fd_clause(key, f, ok, found, want):
+        chk.instance(r_fd, key, sample=dict(found=found))
+        if not ok:
+            chk.violation(r_fd, key, "FieldData::%s: %s; required: %s" % (key, found, want), f["file"], f["l"])
+    ctor = [f for f in fdf.get("FieldData", []) if len(f["params"]) == 3]
+    if len(ctor) != 1:
+        raise core.AnalysisBroken("FieldData(info, active_size, global_size) not found")
+    ctor = ctor[0]
+    p_info, p_act, p_glob = [p_["n"] for p_ in ctor["params"]]
+    ini = {i_["member"]: show(i_["init"]).replace("?ParenListExpr(", "", 1)[:-1] if show(i_["init"]).startswith("?ParenListExpr(") else show(i_["init"]) for i_ in ctor.get("inits") or []}
+    sz = ("(%s * %s.num_value)" % (p_act, p_info), "(%s.num_value * %s)" % (p_info, p_act))
+    fd_clause("ctor:data", ctor, ini.get("data") in sz, "data(%s)" % ini.get("data"), "data(active_size * info.num_value)")
+    fd_clause("ctor:status", ctor, ini.get("value_status") in tuple(x + ", Opm::value::status::uninitialized" for x in sz), "value_status(%s)" % ini.get("value_status"), "value_status(active_size * info.num_value, uninitialized)")
+    ctxt = show(ctor["body"])
+    gsz = "(%s * this.numValuePerCell())" % p_glob
+    fd_clause("ctor:global", ctor, "if ((%s != 0)) { this.global_data.emplace(%s) this.global_value_status.emplace(%s, Opm::value::status::uninitialized) }" % (p_glob, gsz, gsz) in ctxt, ctxt[:260], "if (global_size != 0) global data and status of global_size * numValuePerCell() entries, uninitialized")
+    fd_clause("ctor:default", ctor, "if (%s.scalar_init) { this.default_assign((*%s.scalar_init)) }" % (p_info, p_info) in ctxt, ctxt[-120:], "if (info.scalar_init) default_assign(*info.scalar_init)")
+    nc = fdf.get("numCells", [None])[0]
+    if nc is None:
+        raise core.AnalysisBroken("FieldData::numCells not found")
+    fd_clause("numCells", nc, show(nc["body"]) == "{ return (this.data.size() / this.numValuePerCell()); }", show(nc["body"]), "data.size() / numValuePerCell()")
+    da = [f for f in fdf.get("default_assign", []) if len(f["params"]) == 1 and "vector" not in f["params"][0]["t"]]
+    if len(da) != 1:
+        raise core.AnalysisBroken("FieldData::default_assign(T) not found")
+    da = da[0]
+    v_ = da["params"][0]["n"]
+    fills = [show(n) for n in walk(da["body"]) if n["k"] == "Call" and ((n.get("fn") or "").endswith("fill") or (n.get("callee") or {}).get("n") == "fill")]
+    want_f = ["std::fill(this.data.begin(), this.data.end(), %s)" % v_, "std::fill(this.value_status.begin(), this.value_status.end(), Opm::value::status::valid_default)",
+              "std::fill(this.global_data.begin(), this.global_data.end(), %s)" % v_, "std::fill(this.global_value_status.begin(), this.global_value_status.end(), Opm::value::status::valid_default)"]
+    top_da = stmt_list(da["body"])
+    g_if = [s_ for s_ in top_da if s_["k"] == "If" and show(strip(s_["cond"])) in ("this.global_data", "this.global_data.has_value()", "this.global_data.operator bool()")]
+    fd_clause("default_assign", da, sorted(fills) == sorted(want_f) and len(g_if) == 1 and all(w in show(g_if[0]["then"]) for w in want_f[2:]) and all(w in [show(s_) for s_ in top_da] for w in want_f[:2]), fills, "fill data with the value and value_status with valid_default; the same for the global storage if present")
+    du = fdf.get("default_update", [None])[0]
+    if du is None:
+        raise core.AnalysisBroken("FieldData::default_update not found")
+    src_ = du["params"][0]["n"]
+    lps = [s_ for s_ in stmt_list(du["body"]) if s_["k"] == "For"]
+    ok = False
+    found = show(du["body"])[-330:]
+    if len(lps) == 1:
+        lp = lps[0]
+        iv = lp["init"]["vars"][0]["n"]
+        body_l = stmt_list(lp["body"])
+        ok = (show(lp["init"]["vars"][0].get("init")) == "0" and show(lp["cond"]) in ("(%s < %s.size())" % (iv, src_), "(%s < this.dataSize())" % iv, "(%s < this.data.size())" % iv) and show(lp.get("inc")) in ("(++%s)" % iv, "(%s++)" % iv)
+              and len(body_l) == 1 and body_l[0]["k"] == "If" and show(strip(body_l[0]["cond"])) == "(!Opm::value::has_value(this.value_status[%s]))" % iv and body_l[0].get("else") is None
+              and sorted(show(x) for x in stmt_list(body_l[0]["then"])) == sorted(["(this.value_status[%s] = Opm::value::status::valid_default)" % iv, "(this.data[%s] = %s[%s])" % (iv, src_, iv)]))
+    fd_clause("default_update", du, ok, found, "for every i: if (!has_value(value_status[i])) { value_status[i] = valid_default; data[i] = src[i]; }")
+    ul = fdf.get("update_local_from_global", [None])[0]
+    if ul is None:
+        raise core.AnalysisBroken("FieldData::update_local_from_global not found")
+    inl_u = Inliner(ul)
+    lps = [s_ for s_ in stmt_list(ul["body"]) if s_["k"] == "For"]
+    ok = False
+    if len(lps) == 1:
+        lp = lps[0]
+        decls = {v["n"]: show(v.get("init")) for s_ in stmt_list(ul["body"]) if s_["k"] == "Decl" for v in s_["vars"]}
+        decls.update({v["n"]: show(v.get("init")) for v in (lp.get("init") or {}).get("vars", [])})
+        cur = [k_ for k_, v in decls.items() if v == "this.data.begin()"]
+        cst = [k_ for k_, v in decls.items() if v == "this.value_status.begin()"]
+        cnt = [k_ for k_, v in decls.items() if v in ("{}", "0", "std::size_t{}")]
+        if len(cur) == 1 and len(cst) == 1 and len(cnt) == 1:
+            incs = set(re.findall(r"\(\+\+(\w+)\)", show(lp.get("inc"))))
+            fcall = ul["params"][0]["n"]
+            body_txt = sorted(inl_u.render(s_, roles={cur[0]: "cur", cst[0]: "st", cnt[0]: "i"}) for s_ in stmt_list(lp["body"]) if s_["k"] != "Decl")
+            ok = (incs == {cur[0], cst[0], cnt[0]} and show(lp["cond"]) == "(%s != this.data.end())" % cur[0]
+                  and body_txt == sorted(["((*$cur) = (*this.global_data)[$1($i)])".replace("$1", "$1"), "((*$st) = (*this.global_value_status)[$1($i)])"]))
+            if not ok:
+                found = "inc %s, cond %s, body %s" % (sorted(incs), show(lp["cond"]), body_txt)
+    fd_clause("update_local_from_global", ul, ok, found if not ok else "ok", "entry i of data / value_status receives global_data / global_value_status at local_to_global(i); all three cursors advance together")
+    eq = fdf.get("operator==", [None])[0]
+    if eq is None:
+        raise core.AnalysisBroken("FieldData::operator== not found")
+    etxt = show(eq["body"])
+    other = eq["params"][0]["n"]
+    mem = ["data", "value_status", "kw_info", "global_data", "global_value_status"]
+    miss = [m_ for m_ in mem if "(this.%s == %s.%s)" % (m_, other, m_) not in etxt and "(%s.%s == this.%s)" % (other, m_, m_) not in etxt]
+    fd_clause("operator==", eq, not miss and "||" not in etxt and "!=" not in etxt, etxt[:300], "conjunction of == over data, value_status, kw_info, global_data, global_value_status (missing: %s)" % miss)
+
+    # ---- C12.opapply: FieldProps::operate, the loop of OPERATE / OPERATER
+    r_oa = chk.rule("C12.opapply", "FieldProps::operate: target and source data and status are all taken from the global storage if `global` is set and all from the per-active-cell storage otherwise; a cell is computed only if the source has a value there and - for MULTIPLY and POLY, which read the target - the target has one too, otherwise the keyword is rejected; the result is func(target, source) at the same index and the cell takes the status of the source; handle_OPERATE applies it to the box's active cells and, when the target has global storage, again to all cells of the box with global set", floor=5)
+    opf = [f for f in fns if f["n"] == "operate" and (f.get("cls") or "").endswith("FieldProps") and f["file"].endswith("FieldProps.cpp")]
+    if len(opf) != 1:
+        raise core.AnalysisBroken("FieldProps::operate not found")
+    opf = opf[0]
+    pn = [p_["n"] for p_ in opf["params"]]
+    p_tgt, p_src, p_list, p_glob = pn[1], pn[2], pn[3], pn[4]
+    decls = {v["n"]: show(strip(v["init"])) for n in walk(opf["body"]) if n["k"] == "Decl" for v in n["vars"] if isinstance(v.get("init"), dict)}
+    sel = {"(%s ? (*%s.global_data) : %s.data)" % (p_glob, p_tgt, p_tgt): "to_data", "(%s ? (*%s.global_value_status) : %s.value_status)" % (p_glob, p_tgt, p_tgt): "to_status",
+           "(%s ? (*%s.global_data) : %s.data)" % (p_glob, p_src, p_src): "from_data", "(%s ? (*%s.global_value_status) : %s.value_status)" % (p_glob, p_src, p_src): "from_status"}
+    role_of = {k_: sel[v] for k_, v in decls.items() if v in sel}
+
+    def oa_clause(key, ok, found, want, line=None):
+        chk.instance(r_oa, key, sample=dict(found=found))
+        if not ok:
+            chk.violation(r_oa, key, "FieldProps::operate: %s; required: %s" % (found, want), opf["file"], line or opf["l"])
+    oa_clause("storage", sorted(role_of.values()) == ["from_data", "from_status", "to_data", "to_status"], {k_: v for k_, v in decls.items() if "global" in v}, "four references, each `global ? *X.global_<part> : X.<part>` of the target / the source")
+    ct = [k_ for k_, v in decls.items() if "MULTIPLY" in v or "POLY" in v]
+    fnm = [k_ for k_, v in decls.items() if '"OPERATION"' in v and "getItem" in v]
+    oa_clause("check_target", len(ct) == 1 and len(fnm) == 1 and decls[ct[0]] in ('((%s == "MULTIPLY") || (%s == "POLY"))' % (fnm[0], fnm[0]), '((%s == "POLY") || (%s == "MULTIPLY"))' % (fnm[0], fnm[0])), {k_: decls[k_] for k_ in ct}, "check_target = (operation is MULTIPLY) || (operation is POLY)")
+    lps = [s_ for s_ in stmt_list(opf["body"]) if s_["k"] == "ForRange" and show(s_["range"]) == p_list]
+    if len(lps) == 1 and len(role_of) == 4 and len(ct) == 1:
+        lp = lps[0]
+        inl_o = Inliner(opf, keep=set(role_of) | {ct[0]})
+        RL = dict({k_: v for k_, v in role_of.items()}, **{lp["var"]["n"]: "c", ct[0]: "check"})
+        body_l = [s_ for s_ in stmt_list(lp["body"]) if s_["k"] != "Decl"]
+        ok = False
+        found = [inl_o.render(s_, roles=RL)[:200] for s_ in body_l]
+        if len(body_l) == 1 and body_l[0]["k"] == "If":
+            o_ = body_l[0]
+            c1 = inl_o.render(o_["cond"], roles=RL)
+            el1 = stmt_list(o_["else"]) if o_.get("else") is not None else []
+            th1 = stmt_list(o_["then"])
+            if c1 == "Opm::value::has_value($from_status[$c.active_index])" and len(el1) == 1 and el1[0]["k"] == "Throw" and len(th1) == 1 and th1[0]["k"] == "If":
+                i_ = th1[0]
+                c2 = inl_o.render(i_["cond"], roles=RL)
+                el2 = stmt_list(i_["else"]) if i_.get("else") is not None else []
+                th2 = sorted(inl_o.render(s_, roles=RL) for s_ in stmt_list(i_["then"]))
+                fvar = [k_ for k_, v in decls.items() if "Operate::get" in v]
+                want2 = sorted(["($to_status[$c.active_index] = $from_status[$c.active_index])"])
+                ok = (c2 in ("((!$check) || Opm::value::has_value($to_status[$c.active_index]))", "(Opm::value::has_value($to_status[$c.active_index]) || (!$check))") and len(el2) == 1 and el2[0]["k"] == "Throw"
+                      and len(th2) == 2 and want2[0] in th2 and any(re.fullmatch(r"\(\$to_data\[\$c\.active_index\] = .*\(\$to_data\[\$c\.active_index\], \$from_data\[\$c\.active_index\]\)\)", t) and "Operate::get" in t for t in th2))
+                found = [c1, c2] + th2
+        oa_clause("loop", ok, found, "if (has_value(from_status[ix])) { if (!check_target || has_value(to_status[ix])) { to_data[ix] = func(to_data[ix], from_data[ix]); to_status[ix] = from_status[ix]; } else throw } else throw, ix = cell.active_index", lp["l"])
+    else:
+        oa_clause("loop", False, "loop over the index list / the four storage references not found", "one loop over index_list")
+    ho = [f for f in fns if f["n"] == "handle_OPERATE" and f["file"].endswith("FieldProps.cpp")]
+    if len(ho) != 1:
+        raise core.AnalysisBroken("FieldProps::handle_OPERATE not found")
+    ho = ho[0]
+    calls_o = [n for n in walk(ho["body"]) if n["k"] in ("Call", "MCall") and (n.get("m") == "operate" or (n.get("fn") or "").endswith("::operate"))]
+    boxp = [p_["n"] for p_ in ho["params"] if "Box" in p_["t"]]
+    sig = sorted((show(n["a"][3]), show(n["a"][4]) if len(n["a"]) > 4 and n["a"][4].get("k") != "DefArg" else "false") for n in calls_o if len(n.get("a") or []) >= 4)
+    want_sig = sorted([("%s.index_list()" % boxp[0], "false"), ("%s.global_index_list()" % boxp[0], "true")]) if boxp else None
+    chk.instance(r_oa, "handle_OPERATE", sample=dict(calls=sig))
+    if sig != want_sig:
+        chk.violation(r_oa, "handle_OPERATE", "handle_OPERATE calls operate with (index list, global) = %s; required %s" % (sig, want_sig), ho["file"], ho["l"])
+    else:
+        gcall = [n for n in calls_o if show(n["a"][3]).endswith("global_index_list()")][0]
+        guards = [s_ for s_ in walk(ho["body"]) if s_["k"] == "If" and any(x is gcall for x in walk(s_["then"]))]
+        tdecl = {v["n"] for n in walk(ho["body"]) if n["k"] == "Decl" for v in n["vars"]}
+        okg = any(show(strip(g["cond"])) in ("%s.global_data" % show(gcall["a"][1]), "%s.global_data.has_value()" % show(gcall["a"][1]), "%s.global_data.operator bool()" % show(gcall["a"][1])) for g in guards)
+        chk.instance(r_oa, "handle_OPERATE:global", sample=dict(guards=[show(g["cond"]) for g in guards]))
+        if not okg:
+            chk.violation(r_oa, "handle_OPERATE:global", "handle_OPERATE: the pass over the global storage is not guarded by the target having global storage (%s)" % [show(g["cond"]) for g in guards], ho["file"], gcall["l"])
+
+    # ---- C12.lostcopy: an update written into a local copy of the storage it is meant for
+    r_lc = chk.rule("C12.lostcopy", "in the cell-property code a local variable that is a by-value copy of storage outliving the function (a member of *this or of a reference parameter, possibly through * or .value()) is not used only as the target of element assignments / mutating calls: such writes end with the function and the array they were meant for keeps its old content (a reference binding - auto& - is what the sibling variables use)", floor=1)
+    from verif.tree import children as _children
+    MUTATORS = {"push_back", "emplace_back", "clear", "resize", "insert", "erase", "assign", "fill", "swap", "reserve"}
+    n_lc = 0
+    for f in fns:
+        if not f["file"].startswith(core.REPO + "/opm/input/eclipse/EclipseState/Grid/"):
+            continue
+        refparams = {p_["n"] for p_ in f["params"] if p_.get("n") and ("&" in (p_.get("t") or "") or "*" in (p_.get("t") or ""))}
+        cands = {}
+        for n in walk(f["body"]):
+            if n["k"] != "Decl":
+                continue
+            for v in n["vars"]:
+                t = v.get("t") or ""
+                if "&" in t or "*" in t or not isinstance(v.get("init"), dict) or "iterator" in t:
+                    continue
+                e = strip(v["init"])
+                while True:
+                    if e.get("k") == "Un" and e.get("op") == "*" and e.get("c"):
+                        e = strip(e["c"][0])
+                    elif e.get("k") in ("MCall", "Call") and (e.get("m") in ("value",) or meth(e)[0] == "value") and meth(e)[1] is not None:
+                        e = strip(meth(e)[1])
+                    elif e.get("k") in ("OpCall",) and e.get("op") == "*" and len(e.get("a") or []) == 1:
+                        e = strip(e["a"][0])
+                    elif e.get("k") in ("Ctor", "Temp", "Bind", "Cast", "?ParenListExpr") and len([c for c in (e.get("a") or e.get("c") or []) if c.get("k") != "DefArg"]) == 1:
+                        e = strip([c for c in (e.get("a") or e.get("c")) if c.get("k") != "DefArg"][0])
+                    else:
+                        break
+                root = e
+                depth = 0
+                while root.get("k") in ("Mem", "DMem") and isinstance(root.get("b"), dict):
+                    root = strip(root["b"])
+                    depth += 1
+                is_storage = depth >= 1 and ((root.get("k") == "Ref" and root.get("n") in refparams) or root.get("k") == "This" or show(root) == "this")
+                container = any(w in t for w in ("vector", "auto", "map", "array", "optional")) or t == "auto"
+                if is_storage and container:
+                    cands[(v["n"], v.get("l"))] = (v, show(v["init"]))
+        if not cands:
+            continue
+        uses = {k: dict(write=[], read=[]) for k in cands}
+
+        def rec(n, ctx):
+            # ctx: how the value of this node is used by its parent: 'w' (written through), 'r' (read)
+            if n.get("k") == "Ref" and (n.get("n"), n.get("dl")) in uses:
+                uses[(n["n"], n["dl"])]["write" if ctx == "w" else "read"].append(n.get("l"))
+                return
+            k = n.get("k")
+            if k == "Bin" and n.get("asg") and len(n.get("c") or []) == 2:
+                lhs = strip(n["c"][0])
+                base = lhs
+                while base.get("k") in ("Idx",) and base.get("c"):
+                    rec(base["c"][1], "r")
+                    base = strip(base["c"][0])
+                while base.get("k") == "OpCall" and base.get("op") == "[]" and len(base.get("a") or []) == 2:
+                    rec(base["a"][1], "r")
+                    base = strip(base["a"][0])
+                if base is not lhs and base.get("k") == "Ref":
+                    rec(base, "w" if n["op"] == "=" else "w")
+                else:
+                    rec(n["c"][0], "r")
+                rec(n["c"][1], "r")
+                return
+            if k == "OpCall" and n.get("op") in ("=", "+=", "-=", "*=", "/=") and len(n.get("a") or []) == 2:
+                lhs = strip(n["a"][0])
+                base = lhs
+                while base.get("k") == "OpCall" and base.get("op") == "[]" and len(base.get("a") or []) == 2:
+                    rec(base["a"][1], "r")
+                    base = strip(base["a"][0])
+                while base.get("k") in ("Idx",) and base.get("c"):
+                    rec(base["c"][1], "r")
+                    base = strip(base["c"][0])
+                if base is not lhs and base.get("k") == "Ref":
+                    rec(base, "w")
+                else:
+                    rec(n["a"][0], "r")
+                rec(n["a"][1], "r")
+                return
+            if k in ("MCall", "Call") and meth(n)[0] in MUTATORS and meth(n)[1] is not None and strip(meth(n)[1]).get("k") == "Ref":
+                rec(strip(meth(n)[1]), "w")
+                for a_ in n.get("a") or []:
+                    rec(a_, "r")
+                return
+            for c in _children(n):
+                rec(c, "r")
+        rec(f["body"], "r")
+        for k_, (v, init) in cands.items():
+            u = uses[k_]
+            n_lc += 1
+            key = "%s:%s" % (f["q"].split("::")[-1], v["n"])
+            chk.instance(r_lc, key + "@%s" % v.get("l"), nontrivial=bool(u["write"]), sample=dict(function=f["q"], local=v["n"], type=v.get("t"), copy_of=init, written_at=u["write"][:6], read_at=u["read"][:6]))
+            if u["write"] and not u["read"]:
+                chk.violation(r_lc, key, "%s: `%s` (declared `%s %s = %s`, line %s) is a COPY of storage that outlives the function and is only written to (lines %s), never read, returned or passed on: the updates are lost when the function returns and %s keeps its old content" % (f["q"], v["n"], v.get("t"), v["n"], init, v.get("l"), sorted(set(u["write"])), init), f["file"], v.get("l"))
+
     # ---- C12.siscalar: the scalar of an operation keyword enters the arrays in SI units
     r_si = chk.rule("C12.siscalar", "in FieldProps every floating-point number taken from an operation record (item.get<double>(0)) goes through the unit conversion of the target array - getSIValue(operation, keyword, value), or get_alpha / get_beta for OPERATE, which call it - before it is applied; for an integer array it is converted to int instead.  The box handler and the region handler therefore apply the same value for the same record (ADD 50 mD is 50 mD in both)", floor=4)
     SI_FN = {"getSIValue", "get_alpha", "get_beta"}
